@@ -3,7 +3,7 @@
 # IDL equivalent:
 #   service VerifService {
 #     string echo(1: string s), i64 add(1: i32 a, 2: i64 b), Pair swap(1: Pair p),
-#     string lock(1: string key, 2: i32 timeout),
+#     string lock(1: string key, 2: i32 timeout), string tail(1: string s),
 #     bool flag(1: bool b, 2: double d), void ping(),
 #     string fail(1: string why) throws (1: VerifError err),
 #     void vfail(1: string why) throws (1: VerifError err),
@@ -27,6 +27,9 @@ class Iface(object):
         pass
 
     def lock(self, key, timeout):
+        pass
+
+    def tail(self, s):
         pass
 
     def swap(self, p):
@@ -58,6 +61,7 @@ class Processor(Iface, TProcessor):
         self._processMap["echo"] = Processor.process_echo
         self._processMap["add"] = Processor.process_add
         self._processMap["lock"] = Processor.process_lock
+        self._processMap["tail"] = Processor.process_tail
         self._processMap["swap"] = Processor.process_swap
         self._processMap["flag"] = Processor.process_flag
         self._processMap["ping"] = Processor.process_ping
@@ -106,6 +110,29 @@ class Processor(Iface, TProcessor):
             msg_type = TMessageType.EXCEPTION
             result = TApplicationException(TApplicationException.INTERNAL_ERROR, 'Internal error')
         oprot.writeMessageBegin("echo", msg_type, seqid)
+        result.write(oprot)
+        oprot.writeMessageEnd()
+        oprot.trans.flush()
+
+    def process_tail(self, seqid, iprot, oprot):
+        args = tail_args()
+        args.read(iprot)
+        iprot.readMessageEnd()
+        result = tail_result()
+        try:
+            result.success = self._handler.tail(args.s)
+            msg_type = TMessageType.REPLY
+        except TTransport.TTransportException:
+            raise
+        except TApplicationException as ex:
+            logging.exception('TApplication exception in handler')
+            msg_type = TMessageType.EXCEPTION
+            result = ex
+        except Exception:
+            logging.exception('Unexpected exception in handler')
+            msg_type = TMessageType.EXCEPTION
+            result = TApplicationException(TApplicationException.INTERNAL_ERROR, 'Internal error')
+        oprot.writeMessageBegin("tail", msg_type, seqid)
         result.write(oprot)
         oprot.writeMessageEnd()
         oprot.trans.flush()
@@ -358,6 +385,33 @@ class echo_result(TBase):
 
 all_structs.append(echo_result)
 echo_result.thrift_spec = (
+    (0, TType.STRING, 'success', 'UTF8', None, ),  # 0
+)
+
+
+class tail_args(TBase):
+    __slots__ = ('s',)
+
+    def __init__(self, s=None):
+        self.s = s
+
+
+all_structs.append(tail_args)
+tail_args.thrift_spec = (
+    None,  # 0
+    (1, TType.STRING, 's', 'UTF8', None, ),  # 1
+)
+
+
+class tail_result(TBase):
+    __slots__ = ('success',)
+
+    def __init__(self, success=None):
+        self.success = success
+
+
+all_structs.append(tail_result)
+tail_result.thrift_spec = (
     (0, TType.STRING, 'success', 'UTF8', None, ),  # 0
 )
 
